@@ -134,6 +134,7 @@ pub struct RunFacts {
     pub rec_issue: Vec<usize>,
     pub prefix: Vec<Model>,
     pub uncertain: bool,
+    pub family_lower: bool,
 }
 
 pub fn run_facts(out: &RunOut) -> RunFacts {
@@ -152,7 +153,7 @@ pub fn run_facts(out: &RunOut) -> RunFacts {
             _ => {}
         }
     }
-    RunFacts { acks, created, rec_issue: out.records.iter().map(|r| r.t_issue).collect(), prefix: out.prefix_models(), uncertain: out.caller_errors > 0 }
+    RunFacts { acks, created, rec_issue: out.records.iter().map(|r| r.t_issue).collect(), prefix: out.prefix_models(), uncertain: out.caller_errors > 0, family_lower: out.family_lower }
 }
 
 impl RunFacts {
@@ -248,7 +249,7 @@ pub fn enumerate(initial: &Disk, trace: &[Ev], thorough: bool, rng: &mut Rng, bu
     };
     let mut specs = vec![];
     for k in chosen {
-        specs.push(CrashSpec { k, partial: None, kind: CrashKind::Process, cuts: BTreeMap::new(), nested: None });
+        specs.push(CrashSpec { k, partial: None, kind: CrashKind::Process, cuts: BTreeMap::new(), nested: None, after_continuation: None });
         // crash inside the next write
         if let Some(Ev::Fs(f)) = trace.get(k) {
             if f.op == FsOp::Write && f.res > 1 {
@@ -271,7 +272,7 @@ pub fn enumerate(initial: &Disk, trace: &[Ev], thorough: bool, rng: &mut Rng, bu
                 parts.dedup();
                 for p in parts {
                     if p > 0 && p < n {
-                        specs.push(CrashSpec { k, partial: Some(p), kind: CrashKind::Process, cuts: BTreeMap::new(), nested: None });
+                        specs.push(CrashSpec { k, partial: Some(p), kind: CrashKind::Process, cuts: BTreeMap::new(), nested: None, after_continuation: None });
                     }
                 }
             }
@@ -287,7 +288,7 @@ pub fn enumerate(initial: &Disk, trace: &[Ev], thorough: bool, rng: &mut Rng, bu
         for (n, s, _) in &unsynced {
             all.insert((*n).clone(), *s);
         }
-        specs.push(CrashSpec { k, partial: None, kind: CrashKind::PowerCut, cuts: all.clone(), nested: None });
+        specs.push(CrashSpec { k, partial: None, kind: CrashKind::PowerCut, cuts: all.clone(), nested: None, after_continuation: None });
         // (b) per file cuts, the others keeping everything / losing everything
         for (n, s, l) in &unsynced {
             let f = &d.files[*n];
@@ -313,11 +314,11 @@ pub fn enumerate(initial: &Disk, trace: &[Ev], thorough: bool, rng: &mut Rng, bu
                 }
                 let mut m = BTreeMap::new();
                 m.insert((*n).clone(), c);
-                specs.push(CrashSpec { k, partial: None, kind: CrashKind::PowerCut, cuts: m.clone(), nested: None });
+                specs.push(CrashSpec { k, partial: None, kind: CrashKind::PowerCut, cuts: m.clone(), nested: None, after_continuation: None });
                 if thorough && unsynced.len() > 1 {
                     let mut m2 = all.clone();
                     m2.insert((*n).clone(), c);
-                    specs.push(CrashSpec { k, partial: None, kind: CrashKind::PowerCut, cuts: m2, nested: None });
+                    specs.push(CrashSpec { k, partial: None, kind: CrashKind::PowerCut, cuts: m2, nested: None, after_continuation: None });
                 }
             }
             // (c) zero-fill from a record boundary >= synced
@@ -326,7 +327,7 @@ pub fn enumerate(initial: &Disk, trace: &[Ev], thorough: bool, rng: &mut Rng, bu
             for z in zs {
                 let mut m = BTreeMap::new();
                 m.insert((*n).clone(), z);
-                specs.push(CrashSpec { k, partial: None, kind: CrashKind::PowerZero, cuts: m, nested: None });
+                specs.push(CrashSpec { k, partial: None, kind: CrashKind::PowerZero, cuts: m, nested: None, after_continuation: None });
             }
         }
     }
@@ -455,19 +456,90 @@ pub fn check_run(
         // continuation: the recovered store must accept writes, flushes and a further restart
         if cc.continuation {
             if let Outcome::Opened { state, entries, read_err: None } = &res.outcome {
-                let sample = only.is_some() || cc.thorough && stats.continuations < 400 || rng.chance(12);
+                let sample = only.is_some() || cc.thorough && stats.continuations < 400 || rng.chance(if c.kind == CrashKind::Process { 30 } else { 8 });
                 if let (true, Some(j)) = (sample, match_prefix(&facts.prefix, 0, facts.prefix.len() - 1, state, entries)) {
                     stats.continuations += 1;
                     *stats.probes.entry("continuation_after_recovery".into()).or_default() += 1;
                     let mut crng = Rng::new(crate::rng::mix(&[c.k as u64, j as u64, 77]));
                     let ops = crate::gen::gen_continuation(&mut crng, &facts.prefix[j]);
-                    let spec = crate::ops::Spec { prop: prop.to_string(), run_seed: c.k as u64, cfg: cfg.clone(), ops, sched: crate::ops::Sched::Default, faults: vec![], flush_batch: 1024, lower_term_reappend: false };
+                    let mut ccfg = cfg.clone();
+                    ccfg.log_cache_max_items = None;
+                    ccfg.log_cache_capacity = None;
+                    let spec = crate::ops::Spec { prop: prop.to_string(), run_seed: c.k as u64, cfg: ccfg, ops, sched: crate::ops::Sched::Default, faults: vec![], flush_batch: 1024, lower_term_reappend: false };
                     let or = crate::exec::Oracles { prop: prop.to_string(), model_eq: true, restart_eq: true, ..Default::default() };
                     // the recovered directory is what the first open left behind
                     res.after.write_to(img_dir);
                     let cont = crate::exec::run_spec_in(&spec, &or, img_dir, facts.prefix[j].clone());
-                    for v in cont.violations {
+                    for v in &cont.violations {
                         push(&mut viols, format!("continuation:{}", v.class), format!("after recovery from crash {:?} (state = S_{j}): op #{}: {}", c, v.op_index, v.detail), c.clone());
+                    }
+                    // second-level: the machine loses power while the recovered process runs. Bytes
+                    // the dead process wrote but never synced are still only in the page cache.
+                    if cont.violations.is_empty() && cont.aborted.is_none() {
+                        let base0 = if c.kind == CrashKind::Process { img.clone() } else { img.clone().all_durable() };
+                        let base = Disk::replay(&base0, &res.trace, res.trace.len());
+                        let cfacts = run_facts(&cont);
+                        let ccfg_at = |k: usize| cont.opens.iter().rev().find(|o| o.t_begin <= k).map(|o| o.cfg.clone()).unwrap_or_else(|| cfg.clone());
+                        // crash points: right after every Ack(ok) of the continuation, everything unsynced lost
+                        let mut pts: Vec<usize> = cont.ep.trace.iter().enumerate().filter(|(_, e)| matches!(e, Ev::H(HEv::Ack { ok: true, .. }))).map(|(i, _)| i + 1).collect();
+                        if let Some(ac) = c.after_continuation.as_ref() {
+                            pts = vec![ac.k];
+                        }
+                        for k2 in pts {
+                            let d2 = Disk::replay(&base, &cont.ep.trace, k2);
+                            let mut cuts = BTreeMap::new();
+                            for (n, f) in &d2.files {
+                                if f.synced < f.data.len() {
+                                    cuts.insert(n.clone(), f.synced);
+                                }
+                            }
+                            let c2 = CrashSpec { k: k2, partial: None, kind: CrashKind::PowerCut, cuts, nested: None, after_continuation: None };
+                            let img2 = make_image(&base, &cont.ep.trace, &c2);
+                            stats.nested_images += 1;
+                            *stats.probes.entry("power_loss_after_continuation".into()).or_default() += 1;
+                            let (res2, _) = eval_image(&img2, &ccfg_at(k2), img_dir, false);
+                            let (m2, n2) = cfacts.bounds(k2);
+                            let mut full = c.clone();
+                            full.after_continuation = Some(Box::new(c2.clone()));
+                            match &res2.outcome {
+                                Outcome::Opened { state, entries, read_err } => {
+                                    stats.opened += 1;
+                                    if read_err.is_none() && match_prefix(&cfacts.prefix, m2, n2, state, entries).is_none() {
+                                        push(&mut viols, "after-continuation:acked-write-lost".into(), format!("crash {:?}, recovery, continuation, power loss after its ack at {k2}: recovered {:?} / {} entries is not a continuation prefix in [{m2},{n2}]", c, state, entries.len()), full);
+                                    }
+                                }
+                                Outcome::Refused(_) | Outcome::Panicked { .. } => {
+                                    let (what, err, detail) = match &res2.outcome {
+                                        Outcome::Refused(e) => {
+                                            stats.refused += 1;
+                                            ("open-refused", e.split(':').take(2).collect::<Vec<_>>().join(":"), format!("open refused: {e}"))
+                                        }
+                                        Outcome::Panicked { loc, msg } => {
+                                            stats.panicked += 1;
+                                            ("open-panic", crate::exec::panic_class(loc, msg), format!("open panicked at {loc}: {msg}"))
+                                        }
+                                        _ => unreachable!(),
+                                    };
+                                    // is the damaged chunk one that still held bytes the dead process (or its
+                                    // recovery) wrote but nobody ever synced?
+                                    let sh = image_shape(&img2);
+                                    let victim = sh.short_non_newest.map(|x| x.0).or(if sh.newest_complete == 0 { Some(sh.newest_id) } else { None });
+                                    let dead_tail = victim
+                                        .map(|id| {
+                                            let name = crate::shadow::chunk_name(id);
+                                            base.files.get(&name).map(|f| f.synced < f.data.len()).unwrap_or(false)
+                                        })
+                                        .unwrap_or(false);
+                                    let newest_victim = sh.short_non_newest.is_none();
+                                    let class = if dead_tail && !newest_victim {
+                                        format!("after-continuation:{what}:{err}:unsynced-bytes-of-dead-process-in-non-newest-chunk-never-synced")
+                                    } else {
+                                        format!("after-continuation:{}", classify_failure(what, &err, &img2, &cfacts, k2, false))
+                                    };
+                                    push(&mut viols, class, format!("crash {:?}, recovery ok, continuation acked a flush, power loss at {k2} of the continuation: {detail}; image {:?}", c, sh), full);
+                                }
+                            }
+                        }
                     }
                 }
             }
@@ -526,7 +598,7 @@ fn judge(
             *stats.probes.entry(format!("opened_{:?}{}{}", c.kind, if m > 0 { "_with_acked_data" } else { "" }, if level2 { "_nested" } else { "" })).or_default() += 1;
             if let Some(e) = read_err {
                 if cc.check_prefix {
-                    push(format!("recovered-read-err:{e}"), format!("recovered store cannot read its entries: {e}; crash {:?}", c), c.clone());
+                    push(format!("recovered-read-err:{}:{e}", if facts.family_lower { "lower-term-family" } else { "monotone-family" }), format!("recovered store cannot read its entries: {e}; crash {:?}", c), c.clone());
                 }
                 return;
             }
